@@ -109,6 +109,13 @@ def check(repo: Repo) -> Result:
 
     r6 = res.rule("C13-R6", "the unit attached to a ufunc result comes from the unit rule applied to the operands' units (or is re-created in that unit's registry): never a constant bound to the default registry", floor=4)
     share(res, r6, "C07", lambda t: c07.wrapup_rule(repo, t), ["C07-R4"], want=lambda k: k.startswith("unit-def:"), min_keys=4)
+    from rules import c10, memo_rules
+
+    r7 = res.rule("C13-R7", "a registry's unit-string cache and the units handed out for it hold that registry's own definitions: no Unit is built from text together with explicit (foreign) values, and a unit system's unit is re-created in the caller's registry", floor=5)
+    for key, ok, where, msg, exp, found in memo_rules.explicit_values(repo):
+        res.check(ok, key, where, msg, exp, found, rid=r7)
+    ok_reg, found_reg = c10.base_equivalent_in_own_registry(repo)
+    res.check(ok_reg, "get_base_equivalent:own-registry", repo.mod(UO).func("Unit.get_base_equivalent").where(), "get_base_equivalent hands out the unit system's own Unit object (bound to the system's registry, the default one for built-in systems) instead of re-creating it in the caller's registry: results of in_base on data of registry B carry registry A's numbers and change when A is edited", "Unit(..., registry=self.registry)", found_reg, rid=r7)
     return res
 
 
@@ -418,4 +425,6 @@ MUTANTS = [
     Mutant("old-registry-fixed-in-place", REG, "_correct_old_unit_registry", "    lut = {}\n", "    lut = data\n", ("C13-R1",)),
     Mutant("deep-copy-shares-default-registry", UO, "Unit.copy", "        if deep:\n", "        if deep and self.registry is not default_unit_registry:\n", ("C13-R1",)),
     Mutant("ratio-shortcut-null-unit", ARR, "unyt_array.__array_ufunc__", "unit = Unit(registry=unit.registry)", "unit = NULL_UNIT", ("C13-R6",)),
+    Mutant("bypass-branch-text-with-values", ARR, "unyt_array.__new__", "                    input_units.expr,\n", "                    str(input_units),\n", ("C13-R7",)),
+    Mutant("base-equivalent-foreign-registry", UO, "Unit.get_base_equivalent", "        return Unit(new_units, registry=self.registry)", "        return new_units", ("C13-R7",)),
 ]
